@@ -102,6 +102,29 @@ func probeID(a idArg) (string, string) {
 	return "", ""
 }
 
+type flightArg struct {
+	A idArg `json:"a"`
+	B idArg `json:"b"`
+}
+
+// a text handed out by one call must still read the same after a later call
+func probeFlight(p flightArg) (string, string) {
+	a, b := uu.ID{Higher: p.A.Hi, Lower: p.A.Lo}, uu.ID{Higher: p.B.Hi, Lower: p.B.Lo}
+	wa, wb := oracle.UUIDText(p.A.Hi, p.A.Lo), oracle.UUIDText(p.B.Hi, p.B.Lo)
+	ta, _ := a.MarshalText()
+	tb, _ := b.MarshalText()
+	fa, _ := uu.DefaultFormatter(nil, a, 0)
+	fb, _ := uu.DefaultFormatter(nil, b, uu.FormatURN)
+	if string(ta) != wa || string(tb) != wb || string(fa) != wa || string(fb) != "urn:uuid:"+wb {
+		return "text_overwritten_by_later_call", fmt.Sprintf("texts of a, b kept across later calls read %q, %q, %q, %q; want %q and %q", ta, tb, fa, fb, wa, wb)
+	}
+	var g uu.ID
+	if err := g.UnmarshalText(ta); err != nil || g != a {
+		return "text_overwritten_by_later_call", fmt.Sprintf("the text kept from a.MarshalText() parses to %v, %v after later calls; want %v", g, err, a)
+	}
+	return "", ""
+}
+
 type txtArg struct {
 	In   mc.Bin `json:"in"`
 	Rule int    `json:"rule"`
@@ -165,6 +188,7 @@ func main() {
 		ptx := mc.NewProbe(r, "text", nil, probeText)
 		r.Assume("reference: positional 8-4-4-4-12 big-endian table written from the RFC 4122 layout; prefix [uU][rR][nN]:uuid: ; a prefix that differs only in the case of 'uuid' is a don't-care (accept with the right value or reject)")
 		r.Assume("the kind of error is only constrained as far as the statement names it: a typed *uu.ParseError (either instantiation) and a zero ID; which sentinel is wrapped is not judged")
+		pfl := mc.NewProbe(r, "two_results_in_flight", nil, probeFlight)
 		bgs := []idArg{{0, 0}, {^uint64(0), ^uint64(0)}, {0x0123456789abcdef, 0xfedcba9876543210}, {0xa5a5a5a5a5a5a5a5, 0xa5a5a5a5a5a5a5a5}, {0x5a5a5a5a5a5a5a5a, 0x5a5a5a5a5a5a5a5a}}
 		r.Phase("each background x {each of 128 bits toggled, each of 32 nibbles set to each of 16 values}: every output path, parse back in 6 renderings x 4 rules x {string,[]byte}, UnmarshalText, Version, Variant", "complete sweeps", func() {
 			r.Parallel(int64(len(bgs))*(128+32*16), 4, func(w *mc.W, i int64) {
@@ -191,6 +215,16 @@ func main() {
 				w.Point()
 				w.NonTrivial()
 				pid.Do(w, a)
+			})
+		})
+		r.Phase("serial: two formatted texts in flight (a result must survive later calls), all ordered pairs of the backgrounds", "complete for the listed ids", func() {
+			r.Serial(func(w *mc.W) {
+				for _, a := range bgs {
+					for _, b := range bgs {
+						w.Point()
+						pfl.Do(w, flightArg{a, b})
+					}
+				}
 			})
 		})
 		r.Phase("all 16x16 (version nibble, variant nibble) x backgrounds", "complete", func() {
